@@ -112,34 +112,7 @@ def describe_place(body, p, depth=0):
 
 
 def fully_inlined(facts):
-    """helper functions that only exist inside the anchored functions they were inlined into: every call to
-    them was replaced by their body, so their panic sites are audited there (with the actual arguments)"""
-    c = getattr(facts, "_fully_inlined", None)
-    if c is not None:
-        return c
-    inl = set()
-    for b in facts.bodies:
-        if b.id in facts.inlined:
-            for blk in b.blocks:
-                n = blk["term"].get("inlined_call")
-                if n:
-                    inl.add(n)
-    # coroutine bodies of inlined async fns count with their parent
-    for b in facts.bodies:
-        if b.parent in inl and b.kind.startswith("coroutine"):
-            inl.add(b.id)
-    remaining = set()
-    for b in facts.non_test_bodies():
-        if b.id in inl:
-            continue
-        for c in b.calls:
-            for n in c.names():
-                if n in inl:
-                    remaining.add(n)
-    out = {x for x in inl if x not in remaining and not any(facts.by_id.get(x) is not None and facts.by_id[x].parent == r for r in remaining)}
-    # a helper called from another helper that is itself fully inlined is fine; one still called elsewhere is not
-    facts._fully_inlined = out
-    return out
+    return facts.fully_inlined()
 
 
 def sites(facts):
